@@ -5,7 +5,7 @@
    fail-safe layers deliver (a prefix of the block stream). *)
 From MLA Require Import Limit.
 From MLA Require Import Base Stream Blocks Writer Repair RepairSpec RepairPure
-  RepairProofs2 RepairProofs5 RepairProofs6 Inst.
+  RepairProofs2 RepairProofs5 RepairProofs6 Inst RepairSize RepairSizeWrap.
 From MLAGen Require Src.
 Open Scope N_scope.
 (* concrete examples: the production value of BINCODE_MAX_DESERIALIZE *)
@@ -31,9 +31,12 @@ Theorem C02_repair_cut_sound {LIM : Limit} :
     wf_blocks FNMAX H bl -> In BEnd bl \/ trailer = [] ->
   forall (n : N) (S : Stream) (R : st S -> N -> Prop) (s0 : st S) (fuel : nat),
     Refines S (takeN n (body TS TC TA TE bl ++ trailer)) R -> R s0 0 -> (N.to_nat n < fuel)%nat ->
-    (* finalize did not fail with SerializationError: the footer of the repaired archive is
-       within BINCODE_MAX_DESERIALIZE (lim) and the u32 length field *)
-    repair FNMAX CACHE TS TC TA TE H S fuel s0 w_init <> Err EDeser ->
+    (* SIZE PREMISE (instead of "finalize did not fail with SerializationError"): the input is
+       small enough for the footer of the repaired archive to fit BINCODE_MAX_DESERIALIZE (lim)
+       and its u32 length field.  RepairSize.repair_footer_fits: the footer map takes at most
+       8 + 3 * (input bytes) bytes (constant c = 0).  For the production limit 536870912 the
+       premise holds for every input of at most 178956968 bytes (~170 MiB). *)
+    8 + 3 * n <= N.min lim (2 ^ 32 - 1) ->
     exists (status : fstatus) (unfinished : list bytes) (out : wstate) (obl : list block),
       repair FNMAX CACHE TS TC TA TE H S fuel s0 w_init = Ok (status, unfinished, out) /\
       good_output FNMAX TS TC TA TE H out obl /\
@@ -46,7 +49,11 @@ Theorem C02_repair_cut_sound {LIM : Limit} :
          unfinished = [] /\ Forall2 same (files_of bl) (files_of obl) /\
          (forall f, In f (files_of bl) -> f_ended f = true)) /\
       (status = FEndOfData \/ status = FEofNextBlock).
-Proof. exact repair_cut_sound. Qed.
+Proof.
+  intros FNMAX CACHE HFN HC TS TC TA TE Ht H HH bl trailer Hwf Htr n S R s0 fuel HR H0 Hfuel Hfit.
+  exact (repair_cut_sound FNMAX CACHE HFN HC TS TC TA TE Ht H HH bl trailer Hwf Htr n S R s0 fuel HR H0 Hfuel
+           (repair_no_ser_cut FNMAX CACHE TS TC TA TE H S _ n R fuel s0 HR H0 Hfit)).
+Qed.
 
 (* the same for ANY prefix w of the block stream (composition with the fail-safe layers) *)
 Theorem C02_repair_sound_any_prefix {LIM : Limit} :
@@ -59,7 +66,8 @@ Theorem C02_repair_sound_any_prefix {LIM : Limit} :
     wf_blocks FNMAX H bl -> In BEnd bl \/ trailer = [] ->
     prefix w (body TS TC TA TE bl ++ trailer) ->
   forall s0 : st S, R s0 0 -> forall fuel : nat, (N.to_nat (len w) < fuel)%nat ->
-    repair FNMAX CACHE TS TC TA TE H S fuel s0 w_init <> Err EDeser ->
+    (* size premise, see C02_repair_cut_sound *)
+    8 + 3 * len w <= N.min lim (2 ^ 32 - 1) ->
     exists (status : fstatus) (unfinished : list bytes) (out : wstate) (obl : list block),
       repair FNMAX CACHE TS TC TA TE H S fuel s0 w_init = Ok (status, unfinished, out) /\
       good_output FNMAX TS TC TA TE H out obl /\
@@ -72,7 +80,11 @@ Theorem C02_repair_sound_any_prefix {LIM : Limit} :
          unfinished = [] /\ Forall2 same (files_of bl) (files_of obl) /\
          (forall f, In f (files_of bl) -> f_ended f = true)) /\
       (status = FEndOfData \/ status = FEofNextBlock).
-Proof. exact repair_sound_any_prefix. Qed.
+Proof.
+  intros FNMAX CACHE HFN HC TS TC TA TE Ht H HH S w R HR bl trailer Hwf Htr Hpre s0 H0 fuel Hfuel Hfit.
+  exact (repair_sound_any_prefix FNMAX CACHE HFN HC TS TC TA TE Ht H HH S w R HR bl trailer Hwf Htr Hpre s0 H0 fuel Hfuel
+           (repair_no_ser_refines FNMAX CACHE TS TC TA TE H S w R fuel s0 HR H0 Hfit)).
+Qed.
 
 (* the exact result: status, unfinished names and recovered records are those of `cutb` *)
 Theorem C02_repair_exact {LIM : Limit} :
@@ -85,14 +97,19 @@ Theorem C02_repair_exact {LIM : Limit} :
     wf_blocks FNMAX H bl -> In BEnd bl \/ trailer = [] ->
     prefix w (body TS TC TA TE bl ++ trailer) ->
   forall s0 : st S, R s0 0 -> forall fuel : nat, (N.to_nat (len w) < fuel)%nat ->
-    repair FNMAX CACHE TS TC TA TE H S fuel s0 w_init <> Err EDeser ->
+    (* size premise, see C02_repair_cut_sound *)
+    8 + 3 * len w <= N.min lim (2 ^ 32 - 1) ->
     exists (out : wstate) (obl : list block),
       repair FNMAX CACHE TS TC TA TE H S fuel s0 w_init =
         Ok (if snd (cutb bl (len w)) then FEndOfData else FEofNextBlock,
             unfinished_of (recovered bl (len w)), out) /\
       good_output FNMAX TS TC TA TE H out obl /\
       Forall2 same (recovered bl (len w)) (files_of obl).
-Proof. exact repair_exact. Qed.
+Proof.
+  intros FNMAX CACHE HFN HC TS TC TA TE Ht H HH S w R HR bl trailer Hwf Htr Hpre s0 H0 fuel Hfuel Hfit.
+  exact (repair_exact FNMAX CACHE HFN HC TS TC TA TE Ht H HH S w R HR bl trailer Hwf Htr Hpre s0 H0 fuel Hfuel
+           (repair_no_ser_refines FNMAX CACHE TS TC TA TE H S w R fuel s0 HR H0 Hfit)).
+Qed.
 
 (* the constants and block tags of the source, both flavours *)
 Theorem C02_source_constants :
@@ -102,6 +119,12 @@ Theorem C02_source_constants :
      Src.BT_FileStart <> Src.BT_EndOfFile /\ Src.BT_FileContent <> Src.BT_EndOfArchiveData /\
      Src.BT_FileContent <> Src.BT_EndOfFile /\ Src.BT_EndOfArchiveData <> Src.BT_EndOfFile).
 Proof. intros k [->| ->]; vm_compute; repeat split; (reflexivity || discriminate). Qed.
+
+(* the size premise at the production value of BINCODE_MAX_DESERIALIZE (536870912 < 2^32):
+   exactly the inputs of at most 178956968 bytes (170.6 MiB) *)
+Theorem C02_size_premise_prod : forall n : N,
+  8 + 3 * n <= N.min (lim (Limit := Src.BINCODE_MAX_DESERIALIZE_prod)) (2 ^ 32 - 1) <-> n <= 178956968.
+Proof. intros n. change (N.min _ _) with 536870912. lia. Qed.
 
 (* ---------- non-vacuity ---------- *)
 Definition ex_H (x : bytes) : bytes := map (fun i => (len x + 3 * N.of_nat i) mod 256) (seq 0 32).
@@ -160,6 +183,7 @@ Print Assumptions C02_repair_cut_sound.
 Print Assumptions C02_repair_sound_any_prefix.
 Print Assumptions C02_repair_exact.
 Print Assumptions C02_source_constants.
+Print Assumptions C02_size_premise_prod.
 Print Assumptions C02_example_wf.
 Print Assumptions C02_example_cut.
 Print Assumptions C02_example_cut_values.
@@ -194,12 +218,10 @@ Theorem C02_repair_encrypted_cut_sound {LIM : Limit} :
     len (ew_out s) / (CHUNK + TAG) + 2 <= 2 ^ 32 ->
   forall (n : N) (unauth : bool) (fuel : nat),
     (N.to_nat (len (body TS TC TA TE bl ++ trailer) + TAG) < fuel)%nat ->
+    (* size premise, see C02_repair_cut_sound: the decryptor delivers at most |plain| + TAG bytes *)
+    8 + 3 * (len (body TS TC TA TE bl ++ trailer) + TAG) <= N.min lim (2 ^ 32 - 1) ->
     exists es b,
       fs_open CHUNK TAG ks (Cursor (takeN n (ew_out s))) 0 = (es, Ok b) /\
-    (* finalize did not fail with SerializationError: the footer of the repaired archive is
-       within BINCODE_MAX_DESERIALIZE (lim) and the u32 length field *)
-    (repair FNMAX CACHE TS TC TA TE H (FsEnc CHUNK TAG ks tagc unauth (Cursor (takeN n (ew_out s))))
-            fuel es w_init <> Err EDeser ->
     exists (status : fstatus) (unfinished : list bytes) (out : wstate) (obl : list block),
       repair FNMAX CACHE TS TC TA TE H (FsEnc CHUNK TAG ks tagc unauth (Cursor (takeN n (ew_out s))))
              fuel es w_init = Ok (status, unfinished, out) /\
@@ -212,8 +234,16 @@ Theorem C02_repair_encrypted_cut_sound {LIM : Limit} :
       (status = FEndOfData ->
          unfinished = [] /\ Forall2 same (files_of bl) (files_of obl) /\
          (forall f, In f (files_of bl) -> f_ended f = true)) /\
-      (status = FEndOfData \/ status = FEofNextBlock)).
-Proof. exact repair_encrypted_cut_sound. Qed.
+      (status = FEndOfData \/ status = FEofNextBlock).
+Proof.
+  intros FNMAX CACHE HFN HC TS TC TA TE Ht H HH CHUNK TAG CIPHERBUF HCH HTAG ks tagc Htagc bl trailer Hwf Htr
+         pieces Hp fuelw s Hw Hbig n unauth fuel Hfuel Hfit.
+  destruct (repair_encrypted_cut_sound FNMAX CACHE HFN HC TS TC TA TE Ht H HH CHUNK TAG CIPHERBUF HCH HTAG ks tagc Htagc
+              bl trailer Hwf Htr pieces Hp fuelw s Hw Hbig n unauth fuel Hfuel) as (es & b & Ho & Hc).
+  exists es, b. split; [exact Ho|]. apply Hc.
+  exact (enc_cut_no_ser FNMAX CACHE TS TC TA TE H CHUNK TAG CIPHERBUF HCH ks tagc Htagc bl trailer pieces fuelw s
+           Hp Hw Hbig Hfit n unauth fuel es b Ho).
+Qed.
 
 (* the general form behind it: ANY read-only source delivering a prefix of the block stream
    (RdRefines: reads only, short reads allowed, no seek required) *)
@@ -227,7 +257,8 @@ Theorem C02_repair_sound_read_only {LIM : Limit} :
     wf_blocks FNMAX H bl -> In BEnd bl \/ trailer = [] ->
     prefix w (body TS TC TA TE bl ++ trailer) ->
   forall s0 : st S, I s0 0 -> forall fuel : nat, (N.to_nat (len w) < fuel)%nat ->
-    repair FNMAX CACHE TS TC TA TE H S fuel s0 w_init <> Err EDeser ->
+    (* size premise, see C02_repair_cut_sound *)
+    8 + 3 * len w <= N.min lim (2 ^ 32 - 1) ->
     exists (status : fstatus) (unfinished : list bytes) (out : wstate) (obl : list block),
       repair FNMAX CACHE TS TC TA TE H S fuel s0 w_init = Ok (status, unfinished, out) /\
       good_output FNMAX TS TC TA TE H out obl /\
@@ -240,7 +271,11 @@ Theorem C02_repair_sound_read_only {LIM : Limit} :
          unfinished = [] /\ Forall2 same (files_of bl) (files_of obl) /\
          (forall f, In f (files_of bl) -> f_ended f = true)) /\
       (status = FEndOfData \/ status = FEofNextBlock).
-Proof. exact repair_sound_rd. Qed.
+Proof.
+  intros FNMAX CACHE HFN HC TS TC TA TE Ht H HH S w I HR bl trailer Hwf Htr Hpre s0 H0 fuel Hfuel Hfit.
+  exact (repair_sound_rd FNMAX CACHE HFN HC TS TC TA TE Ht H HH S w I HR bl trailer Hwf Htr Hpre s0 H0 fuel Hfuel
+           (repair_no_ser_rd FNMAX CACHE TS TC TA TE H S w I fuel s0 HR H0 Hfit)).
+Qed.
 
 (* non-vacuity with the toy cipher, CHUNK = 32, TAG = 4, CIPHERBUF = 8: the archive of the
    example above (185 bytes), handed to the encryption writer in three pieces, one empty;
@@ -266,17 +301,9 @@ Proof.
               ltac:(repeat split; discriminate) ex_H ex_H_len 32 4 8 ltac:(lia) ltac:(lia)
               toy_ks (toy_tag 4) (len_toy_tag 4) ex_bl ex_trailer C02_example_wf
               (or_introl ex_bl_end) ex_pieces ex_pieces_ok 200%nat ex_ew ex_ew_ok
-              ltac:(vm_compute; discriminate) 140 unauth 300%nat ltac:(vm_compute; lia))
-    as (es & b & Ho & Hcon).
-  assert (Hser : repairP 48 4 0 1 254 255 ex_H
-                   (FsEnc 32 4 toy_ks (toy_tag 4) unauth (Cursor (takeN 140 (ew_out ex_ew)))) 300 es w_init <> Err EDeser).
-  { assert (Hv : match fs_open 32 4 toy_ks (Cursor (takeN 140 (ew_out ex_ew))) 0 with
-                 | (es', _) =>
-                   repairP 48 4 0 1 254 255 ex_H
-                     (FsEnc 32 4 toy_ks (toy_tag 4) unauth (Cursor (takeN 140 (ew_out ex_ew)))) 300 es' w_init <> Err EDeser
-                 end) by (destruct unauth; vm_compute; discriminate).
-    rewrite Ho in Hv. exact Hv. }
-  destruct (Hcon Hser) as (status & unf & out & obl & Hr & (Hfin & _) & _).
+              ltac:(vm_compute; discriminate) 140 unauth 300%nat ltac:(vm_compute; lia)
+              ltac:(vm_compute; discriminate))
+    as (es & b & Ho & status & unf & out & obl & Hr & (Hfin & _) & _).
   assert (Hs : status = FEofNextBlock).
   { assert (Hv : match fs_open 32 4 toy_ks (Cursor (takeN 140 (ew_out ex_ew))) 0 with
                  | (es', _) =>
@@ -638,10 +665,8 @@ Theorem C02_repair_cut_sound_src {LIM : Limit} :
   forall (n : N) (S : Stream) (R : st S -> N -> Prop) (s0 : st S) (fuel : nat),
     RdBounded S ->
     Refines S (takeN n (body TS TC TA TE bl ++ trailer)) R -> R s0 0 -> (N.to_nat n < fuel)%nat ->
-    (* the translated function did not fail with SerializationError: the footer of the repaired
-       archive is within BINCODE_MAX_DESERIALIZE (lim) and the u32 length field *)
-    snd (Src3r.convert_to_archive FNMAX CACHE TS TC TA TE H (footer_ser (fun f => f)) (fun _ => Ok tt) S
-           (block_from FNMAX TS TC TA TE S) fuel s0 aw_init) <> Err EDeser ->
+    (* size premise, see C02_repair_cut_sound *)
+    8 + 3 * n <= N.min lim (2 ^ 32 - 1) ->
     exists (l : Src3r.Locals S) (e : Src3r.FailSafeReadError) (status : fstatus) (unfinished : list bytes)
            (obl : list block),
       Src3r.convert_to_archive FNMAX CACHE TS TC TA TE H (footer_ser (fun f => f)) (fun _ => Ok tt) S
@@ -657,7 +682,12 @@ Theorem C02_repair_cut_sound_src {LIM : Limit} :
          unfinished = [] /\ Forall2 same (files_of bl) (files_of obl) /\
          (forall f, In f (files_of bl) -> f_ended f = true)) /\
       (status = FEndOfData \/ status = FEofNextBlock).
-Proof. exact repair_cut_sound_src. Qed.
+Proof.
+  intros FNMAX CACHE HFN HC TS TC TA TE Ht H HH bl trailer Hwf Htr n S R s0 fuel HB HR H0 Hfuel Hfit.
+  exact (repair_cut_sound_src FNMAX CACHE HFN HC TS TC TA TE Ht H HH bl trailer Hwf Htr n S R s0 fuel HB HR H0 Hfuel
+           (conv_no_ser FNMAX CACHE TS TC TA TE H S fuel s0 HC HB
+              (repair_no_ser_cut FNMAX CACHE TS TC TA TE H S _ n R fuel s0 HR H0 Hfit))).
+Qed.
 
 (* status, unfinished names and recovered records are those of the pure `cutb`, at every cut *)
 Theorem C02_repair_cut_exact_src {LIM : Limit} :
@@ -670,10 +700,8 @@ Theorem C02_repair_cut_exact_src {LIM : Limit} :
   forall (n : N) (S : Stream) (R : st S -> N -> Prop) (s0 : st S) (fuel : nat),
     RdBounded S ->
     Refines S (takeN n (body TS TC TA TE bl ++ trailer)) R -> R s0 0 -> (N.to_nat n < fuel)%nat ->
-    (* the translated function did not fail with SerializationError: the footer of the repaired
-       archive is within BINCODE_MAX_DESERIALIZE (lim) and the u32 length field *)
-    snd (Src3r.convert_to_archive FNMAX CACHE TS TC TA TE H (footer_ser (fun f => f)) (fun _ => Ok tt) S
-           (block_from FNMAX TS TC TA TE S) fuel s0 aw_init) <> Err EDeser ->
+    (* size premise, see C02_repair_cut_sound *)
+    8 + 3 * n <= N.min lim (2 ^ 32 - 1) ->
     let m := N.min n (len (body TS TC TA TE bl ++ trailer)) in
     exists (l : Src3r.Locals S) (e : Src3r.FailSafeReadError) (obl : list block),
       Src3r.convert_to_archive FNMAX CACHE TS TC TA TE H (footer_ser (fun f => f)) (fun _ => Ok tt) S
@@ -682,7 +710,12 @@ Theorem C02_repair_cut_exact_src {LIM : Limit} :
       RInv (Src3r.l_output S l) /\
       good_output FNMAX TS TC TA TE H (absW (Src3r.l_output S l)) obl /\
       Forall2 same (recovered bl m) (files_of obl).
-Proof. exact repair_cut_exact_src. Qed.
+Proof.
+  intros FNMAX CACHE HFN HC TS TC TA TE Ht H HH bl trailer Hwf Htr n S R s0 fuel HB HR H0 Hfuel Hfit.
+  exact (repair_cut_exact_src FNMAX CACHE HFN HC TS TC TA TE Ht H HH bl trailer Hwf Htr n S R s0 fuel HB HR H0 Hfuel
+           (conv_no_ser FNMAX CACHE TS TC TA TE H S fuel s0 HC HB
+              (repair_no_ser_cut FNMAX CACHE TS TC TA TE H S _ n R fuel s0 HR H0 Hfit))).
+Qed.
 
 (* any delivered prefix (composition with the fail-safe layers) *)
 Theorem C02_repair_sound_any_prefix_src : ltac:(let t := type of @repair_sound_any_prefix_src in exact t).
